@@ -136,6 +136,76 @@ impl Dump {
     }
 }
 
+/// The statement's side conditions (same tests as in judge_file, without the bins).
+fn in_scope(r: &RefTz) -> bool {
+    r.version <= 3
+        && r.leap_count == 0
+        && !(r.version >= 2 && r.footer.is_none())
+        && !(r.transitions.is_empty() && r.footer.is_none() && r.types.len() > 1)
+        && r.footer_consistent()
+        && r.footer.as_ref().map(|f| f.iana_shaped()).unwrap_or(true)
+}
+
+/// Lookups in several zones interleaved on one thread: the answer for (zone, timestamp) must not depend on which
+/// zone or timestamp was asked before (a lookup hint / cursor kept outside the TimeZone value would).
+fn judge_interleaved(rec: &mut Rec, rng: &mut Rng, zones: Vec<(String, Vec<u8>)>) {
+    let mut parsed: Vec<(String, RefTz, VerifTz)> = vec![];
+    for (name, bytes) in zones {
+        let Ok(r) = tzif_ref::parse(&bytes) else { continue };
+        if !in_scope(&r) {
+            continue;
+        }
+        if let Ok(Ok(tz)) = trap(|| VerifTz::parse(&bytes)) {
+            parsed.push((name, r, tz));
+        }
+    }
+    if parsed.len() < 2 {
+        rec.bin("interleaved/fewer-than-two-zones-in-scope");
+        return;
+    }
+    let mut plan: Vec<(usize, i64)> = vec![];
+    for (zi, (_, r, _)) in parsed.iter().enumerate() {
+        let mut ts = probe_timestamps(rng, r, 20);
+        // emphasise "after the last transition" and interior intervals
+        if let Some(last) = r.transitions.last() {
+            for _ in 0..20 {
+                ts.push(last + rng.range_i64(0, 40 * 366 * 86_400));
+            }
+        }
+        for i in (1..ts.len()).rev() {
+            ts.swap(i, rng.below(i as u64 + 1) as usize);
+        }
+        ts.truncate(120);
+        plan.extend(ts.into_iter().map(|t| (zi, t)));
+    }
+    for i in (1..plan.len()).rev() {
+        plan.swap(i, rng.below(i as u64 + 1) as usize);
+    }
+    rec.bin("interleaved/judged");
+    rec.nontrivial(hash_str(&parsed.iter().map(|p| p.0.clone()).collect::<Vec<_>>().join("+")) ^ plan.len() as u64);
+    let mut prev: Option<(usize, i64)> = None;
+    for (zi, t) in plan {
+        let (name, r, tz) = &parsed[zi];
+        let Some((want, cls)) = r.offset_at(t) else { continue };
+        rec.eval();
+        match trap(|| tz.offset(t)) {
+            Err(p) => {
+                rec.violation(format!("C18|interleaved|panic|{},{}", p.class, p.site()), || json!({"file": name, "timestamp": t, "panic": p.to_json()}));
+                return;
+            }
+            Ok(got) if got != want => {
+                rec.violation(format!("C18|interleaved|wrong-offset|{}|{}", cls, footer_kind(r)), || {
+                    json!({"file": name, "transitions": r.transitions.len(), "footer": r.footer_text, "timestamp": t, "rfc8536_offset": want, "observed_offset": got,
+                           "previous_lookup_on_this_thread": prev.map(|(pz, pt)| json!({"file": parsed[pz].0, "transitions": parsed[pz].1.transitions.len(), "timestamp": pt}))})
+                });
+                return;
+            }
+            _ => {}
+        }
+        prev = Some((zi, t));
+    }
+}
+
 /// Judges one file (bytes) against the reference; returns false when the file is outside the property.
 fn judge_file(rec: &mut Rec, rng: &mut Rng, name: &str, path_for_dump: Option<&str>, bytes: &[u8], origin: &'static str, n_random: u64, dump: &Dump, end_to_end: Option<&std::path::Path>) -> bool {
     let r = match tzif_ref::parse(bytes) {
@@ -311,15 +381,44 @@ pub fn run(ctx: &Ctx) -> PropResult {
         let (pd, e2e) = if on_disk && std::fs::write(&path, &bytes).is_ok() { (Some(path.to_string_lossy().to_string()), Some(path.as_path())) } else { (None, None) };
         judge_file(rec, rng, &name, pd.as_deref(), &bytes, "synthetic", 60, dref, e2e);
     }));
+    wls.push(Workload::cases("interleaved_lookups_across_zones", ctx.count(250, 10_000), move |rec, _idx, rng| {
+        let mut zones: Vec<(String, Vec<u8>)> = vec![];
+        // one table as a v1 file (no footer) and as a v2/v3 file (with footer) ...
+        let mut s = gen_synth(rng);
+        for _ in 0..6 {
+            if s.transitions.len() >= 8 && s.version >= 2 {
+                break;
+            }
+            s = gen_synth(rng);
+        }
+        zones.push((format!("synthetic v{} ({} transitions)", s.version, s.transitions.len()), s.bytes()));
+        let v1 = crate::model::tzif_gen::Synth { version: 1, transitions: s.transitions.clone(), type_idx: s.type_idx.clone(), types: s.types.clone(), footer: String::new() };
+        zones.push((format!("the same table as a v1 file ({} transitions)", v1.transitions.len()), v1.bytes()));
+        // ... and one or two unrelated zones
+        for _ in 0..1 + rng.below(2) {
+            if rng.chance(1, 2) {
+                let o = gen_synth(rng);
+                zones.push((format!("another synthetic v{} ({} transitions)", o.version, o.transitions.len()), o.bytes()));
+            } else {
+                let (n, p) = rng.pick(fr);
+                if let Ok(b) = std::fs::read(p) {
+                    if b.starts_with(b"TZif") && b.len() < 6_000 {
+                        zones.push((n.clone(), b));
+                    }
+                }
+            }
+        }
+        judge_interleaved(rec, rng, zones);
+    }));
     let out = run_workloads(ctx, wls);
     let mut meta = PropMeta::default();
     meta.rule = format!(
-        "files: the vendored IANA corpus ({} fat + slim files, de-duplicated; a seed-dependent third in quick) and the machine's /usr/share/zoneinfo when present (right/ and posix/ excluded), plus synthetic v1/v2/v3 files (0–60 transitions, 1–8 types, footers fixed / M / J / n rules, either hemisphere, negative DST, /time incl. the v3 extended range, footer consistent with the last transition, switch-overs > 8 days apart and from 1 January). timestamps per file: every transition −1/0/+1 s, the footer's switch instants ±1 s and year starts for 16 years in 1900–2499 incl. leap years and Feb 28–Mar 1, random in 1900–2500. Oracle: tzif_ref (RFC 8536 + POSIX TZ evaluator, cross-checked against CPython zoneinfo on this run's own lookups by tools/tz_crosscheck.py) — offset of the latest transition ≤ t, footer rule from the last transition on. A tenth of the corpus and a sample of synthetic files also go end-to-end through Offset::Local.resolve() with /etc/localtime and the clock redirected by the hooks. Not claimed: timestamps before the first transition, empty footers, leap-second files, version 4. Non-trivial = every judged file; distinct by hash of the bytes.",
+        "files: the vendored IANA corpus ({} fat + slim files, de-duplicated; a seed-dependent third in quick) and the machine's /usr/share/zoneinfo when present (right/ and posix/ excluded), plus synthetic v1/v2/v3 files (0–60 transitions, 1–8 types, footers fixed / M / J / n rules, either hemisphere, negative DST, /time incl. the v3 extended range, footer consistent with the last transition, switch-overs > 8 days apart and from 1 January). timestamps per file: every transition −1/0/+1 s, the footer's switch instants ±1 s and year starts for 16 years in 1900–2499 incl. leap years and Feb 28–Mar 1, random in 1900–2500. Oracle: tzif_ref (RFC 8536 + POSIX TZ evaluator, cross-checked against CPython zoneinfo on this run's own lookups by tools/tz_crosscheck.py) — offset of the latest transition ≤ t, footer rule from the last transition on. A tenth of the corpus and a sample of synthetic files also go end-to-end through Offset::Local.resolve() with /etc/localtime and the clock redirected by the hooks. Interleaved: 2–4 zones (one synthetic table as a v1 file and as a v2/v3 file with footer, plus unrelated zones) parsed side by side, their lookups shuffled into one sequence on one thread — the answer for (zone, timestamp) may not depend on what was asked before. Not claimed: timestamps before the first transition, empty footers, leap-second files, version 4. Non-trivial = every judged file; distinct by hash of the bytes.",
         files.iter().filter(|(n, _)| !n.starts_with("system/")).count()
     );
     meta.required_bins = vec![
         "file/v1", "file/v2", "file/v3", "footer/fixed", "footer/M-rules", "footer/J-rules", "footer/n-rules", "footer/negative-dst", "footer/southern-hemisphere", "table/empty", "table/non-empty",
-        "lookup/at-a-transition", "lookup/between-transitions", "lookup/at-last-transition", "lookup/after-last-rule-dst", "lookup/after-last-rule-std", "lookup/no-table-footer", "end-to-end/Offset::Local",
+        "lookup/at-a-transition", "lookup/between-transitions", "lookup/at-last-transition", "lookup/after-last-rule-dst", "lookup/after-last-rule-std", "lookup/no-table-footer", "end-to-end/Offset::Local", "interleaved/judged",
     ];
     meta.assumptions = vec!["tzif_ref is the reference; its agreement with CPython zoneinfo on the dumped lookups is checked by the driver (disagreement ⇒ inconclusive)".into()];
     Ok((meta, out))
